@@ -164,3 +164,152 @@ def peek_eq_switch(lib, body, br, blk):
                 tt, ft = ft, tt
             return (tok or ("param", params[0][1]), look, tt, ft)
     return None
+
+
+# ---------------------------------------------------------------------------
+# token-level path enumeration (C03 separator / emptiness / closer discipline)
+# ---------------------------------------------------------------------------
+NON_CONSUMING = {P + "peek", P + "err", P + "new"}
+
+
+def is_consumer(callee):
+    return callee.startswith(P) and callee not in NON_CONSUMING
+
+
+class TokenPaths:
+    """Enumerates simple CFG paths and the token-level events along them.
+    Facts about peek(0) established by comparisons are tracked and used to prune
+    paths that contradict them (no token is consumed between the two tests)."""
+
+    def __init__(self, lib, body):
+        self.lib = lib
+        self.b = body
+        self.o = Origins(body, lib)
+        self.br = Branches(body, self.o)
+        self.tests = {}
+        for blk, t in self.br.switches():
+            pe = peek_eq_switch(lib, body, self.br, blk)
+            if pe and pe[1] == 0:
+                tok, look, tt, ft = pe
+                self.tests[blk] = ("peek-eq", tok, tt, ft)
+                continue
+            ae = self._adv_eq(blk)
+            if ae:
+                self.tests[blk] = ae
+                continue
+            ve = self.br.variant_edges(blk)
+            if ve and ve["adt"] == TOKEN:
+                scr = ve["scrutinee"]
+                if all(s[0] == "call" and s[1] == P + "peek" and ("const", 0) in s[2][1] for s in scr):
+                    self.tests[blk] = ("peek-discr", ve)
+                elif all((s[0] == "call" and s[1] == P + "advance") or
+                         (s[0] == "field" and s[2] == "1" and s[1][0] == "call" and s[1][1] == P + "advance_with_pos") for s in scr):
+                    self.tests[blk] = ("adv-discr", ve)
+
+    def _adv_eq(self, blk):
+        """bool switch on `consumed_token ==/!= Token::X | closing-param`."""
+        be = self.br.bool_edges(blk)
+        if be is None:
+            return None
+        tt, ft = be
+        for term in self.br.cond(blk):
+            neg = False
+            while term[0] == "un" and term[1] == "Not":
+                term = term[2]
+                neg = not neg
+            if term[0] != "call" or term[1] not in ("std::cmp::PartialEq::eq", "std::cmp::PartialEq::ne"):
+                continue
+            if term[1].endswith("::ne"):
+                neg = not neg
+            sides = [set(term[2][0]), set(term[2][1])]
+
+            def is_adv(ts):
+                return bool(ts) and all((x[0] == "call" and x[1] == P + "advance") or
+                                        (x[0] == "field" and x[2] == "1" and x[1][0] == "call" and x[1][1] == P + "advance_with_pos") for x in ts)
+            adv = [i for i in (0, 1) if is_adv(sides[i])]
+            if len(adv) != 1:
+                continue
+            other = sides[1 - adv[0]]
+            tok = token_of_terms(self.lib, self.b, other)
+            if tok is None:
+                ps = [x for x in other if x[0] == "param"]
+                if len(ps) == 1 and len(other) == 1:
+                    tok = ps[0]
+            if tok is None:
+                continue
+            if neg:
+                tt, ft = ft, tt
+            return ("adv-eq", tok, tt, ft)
+        return None
+
+    def paths(self, start, stops, within=None, max_paths=2000, allow_trivial=False):
+        """Yield (blocks, events) for every feasible simple path from `start` to a block in
+        `stops` (the stop block's own events are not included)."""
+        out = []
+        stops = set(stops)
+
+        def rec(blk, seen, events, facts):
+            if len(out) > max_paths:
+                raise RuntimeError("too many token paths")
+            if blk in stops and (seen or allow_trivial):
+                out.append((list(seen) + [blk], list(events)))
+                return
+            if blk in seen:
+                return
+            if within is not None and blk not in within and blk not in stops:
+                return
+            seen = seen + [blk]
+            t = self.b.blocks[blk]["term"]
+            if t["k"] == "return":
+                if None in stops:
+                    out.append((seen, list(events) + [("return", blk)]))
+                return
+            if t["k"] == "call":
+                c = t["callee"]
+                ev = list(events)
+                f2 = dict(facts)
+                if is_consumer(c):
+                    ev.append(("consume", c.split("::")[-1], blk))
+                    f2 = {}
+                elif not c.startswith("std::ops::") and c != P + "peek" and c != "std::cmp::PartialEq::eq" and c != "std::cmp::PartialEq::ne":
+                    ev.append(("call", c, blk))
+                if t["t"] is not None:
+                    rec(t["t"], seen, ev, f2)
+                return
+            if t["k"] == "switch" and blk in self.tests:
+                tst = self.tests[blk]
+                if tst[0] == "peek-eq":
+                    _, tok, tt, ft = tst
+                    for truth, tgt in ((True, tt), (False, ft)):
+                        if tok in facts and facts[tok] != truth:
+                            continue  # contradicts an earlier test on the same, unconsumed token
+                        f2 = dict(facts)
+                        f2[tok] = truth
+                        rec(tgt, seen, events + [("fact", tok, truth, blk)], f2)
+                    return
+                if tst[0] == "adv-eq":
+                    _, tok, tt, ft = tst
+                    rec(tt, seen, events + [("advfact", tok, True, blk)], dict(facts))
+                    rec(ft, seen, events + [("advfact", tok, False, blk)], dict(facts))
+                    return
+                kind, ve = tst
+                done = set()
+                for v, tgt in list(ve["edges"].items()) + [("<other>", ve["otherwise"])]:
+                    if kind == "peek-discr":
+                        if v != "<other>" and v in facts and facts[v] is False:
+                            continue
+                        f2 = dict(facts)
+                        if v != "<other>":
+                            f2[v] = True
+                        else:
+                            for x in ve["edges"]:
+                                f2[x] = False
+                        rec(tgt, seen, events + [("peekcase", v, blk)], f2)
+                    else:
+                        rec(tgt, seen, events + [("advcase", v, blk)], dict(facts))
+                return
+            for s in self.b.normal_succs(blk):
+                rec(s, seen, events, facts)
+
+        rec(start, [], [], {})
+        return out
